@@ -1065,7 +1065,7 @@ pub fn run() {
     // ---- graphs with 65-170 vertices: cuts with more than 64 vertices on both sides ----
     let n_large = t.pick(60usize, 4_000usize);
     par_cases("large-graphs", n_large, move |r, i| {
-        let n = *r.pick(&[65usize, 100, 129, 131, 140, 150, 170]) + r.below(3);
+        let n = if r.chance(0.5) { *r.pick(&[65usize, 100, 129, 131, 140, 150, 170]) + r.below(3) } else { 65 + r.below(110) };
         let class = *r.pick(&["gnp-sparse", "gnp-half", "random-tree", "path", "cycle", "star", "complete-bipartite", "union-of-cliques"]);
         let gd = gen_graph_with(r, class, n);
         if i % 2 == 0 {
